@@ -286,6 +286,20 @@ func (g *reqGen) requests(c chain, n int) []lreq {
 			add(lreq{Recipe: "single-invalid", Items: []placement{g.item(e, p, "jwt", "issbreaksurl", g.pickSource(e))}})
 		}
 	}
+	// authenticators whose configured endpoint (url or header) is templated with the token issuer: a valid JWT (it names
+	// the tenant), a correctly signed JWT that names no issuer / names something that is not a string, and a reference
+	// token (no claims at all), at any of the sources
+	for _, p := range ps {
+		e := c.Elems[p]
+		if e.proto().Tpl == "" {
+			continue
+		}
+		add(lreq{Recipe: "single-valid", Items: []placement{g.item(e, p, "jwt", "valid", g.pickSource(e))}})
+		add(lreq{Recipe: "single-invalid", Items: []placement{g.item(e, p, "jwt", []string{"noiss", "issnotstring"}[g.rng.IntN(2)], g.pickSource(e))}})
+		if e.proto().Type == "intro" {
+			add(lreq{Recipe: "single-invalid", Items: []placement{g.item(e, p, "opaque", g.anyClass("opaque"), g.pickSource(e))}})
+		}
+	}
 	for tries := 0; len(out) < n && tries < n*20; tries++ {
 		p := ps[g.rng.IntN(len(ps))]
 		e := c.Elems[p]
@@ -365,6 +379,10 @@ func queryEscape(s string) string {
 	return b.String()
 }
 
+// malformedCookiePairs: no "=", a value with a non ASCII character / a backslash / blanks and an unbalanced quote, no
+// name, a name that is not a token. net/http's Request.Cookie skips such pairs.
+var malformedCookiePairs = []string{"consent", "name=Jürgen", `path=c:\temp`, `pref="a b`, "=orphan", "bad name=1", "lang=de,en"}
+
 func (r lreq) wire(path string) wire {
 	w := wire{Method: "GET", Target: path, Headers: map[string]string{}}
 	var q, body, cookies []string
@@ -411,6 +429,17 @@ func (r lreq) wire(path string) wire {
 			name, _, _ := strings.Cut(cookies[0], "=")
 			cookies = append(cookies, "theme=dark", name+"=")
 			w.Noise = append(w.Noise, "duplicate-empty-cookie")
+		}
+		if noise%3 == 2 {
+			// an unrelated cookie pair a strict cookie parser refuses (RFC 6265 4.1.1), before or after the real ones: what
+			// an authenticator finds in the well-formed pairs must not depend on it
+			bad := malformedCookiePairs[noise/3%len(malformedCookiePairs)]
+			if noise/3/len(malformedCookiePairs)%2 == 0 {
+				cookies = append(cookies, bad)
+			} else {
+				cookies = append([]string{bad}, cookies...)
+			}
+			w.Noise = append(w.Noise, "malformed-sibling-cookie")
 		}
 		w.Headers["Cookie"] = strings.Join(cookies, "; ")
 	}
